@@ -1873,7 +1873,8 @@ mod galgo {
 }
 // ---------------------------------------------------------------------------------------------
 
-const OBS: [(&str, &str); 15] = [
+const OBS: [(&str, &str); 16] = [
+    ("C15.text.equiv.cached", "QueryRouter::execute_parsed with init_cache() vs the same router without a query cache (read, write, read)"),
     ("C15.text.equiv.graph_algo", "QueryRouter::execute_parsed (exec_graph_algorithm / exec_neighbors / exec_path / exec_find) vs GraphEngine::{pagerank, betweenness_centrality, closeness_centrality, eigenvector_centrality, louvain_communities, label_propagation, neighbors, find_path, find_nodes_by_label, find_edges_by_type, all_nodes, all_edges}"),
     ("C15.text.equiv.join_where", "QueryRouter::execute_parsed (exec_select_with_joins / evaluate_join_condition) vs RelationalEngine join family + filter"),
     ("C15.text.equiv.order_nulls", "QueryRouter::execute_parsed (sort_rows / compare_values_with_nulls) vs RelationalEngine::{select,left_join} + sort"),
@@ -1896,6 +1897,61 @@ const OP_LEXEMES: [(&str, &str); 25] = [
     (">=", "Ge"), ("AND", "And"), ("and", "And"), ("OR", "Or"), ("||", "Concat"), ("&", "BitAnd"), ("|", "BitOr"), ("^", "BitXor"), ("<<", "Shl"), (">>", "Shr"),
     ("NOT", "Not"), ("!", "Not"), ("-", "Neg"), ("~", "BitNot"),
 ];
+
+
+// ---------------------------------------------------------------------------------------------
+// C15.text.equiv.cached: the router's query cache changes speed only
+mod cached {
+    use super::*;
+    use query_router::QueryRouter;
+    use tensor_checkpoint::CheckpointConfig;
+    use tensor_store::TensorStore;
+
+    pub const OB: &str = "C15.text.equiv.cached";
+    /// cacheable read statements (SELECT / SIMILAR / NEIGHBORS / PATH)
+    pub const READS: [&str; 6] = ["SELECT * FROM t", "SELECT * FROM t WHERE id = 2", "NEIGHBORS 1 OUTGOING", "NEIGHBORS 3 INCOMING", "PATH 1 -> 3", "SIMILAR 'e1' LIMIT 3"];
+    /// one statement of every family that changes tables, graph or embeddings (the last one needs the checkpoint of the fixture)
+    pub const WRITES: [&str; 12] = [
+        "INSERT INTO t (id, name) VALUES (9, 'zed')", "UPDATE t SET name = 'x' WHERE id = 2", "DELETE FROM t WHERE id = 2", "DROP TABLE t",
+        "NODE CREATE person {name: 'dan'}", "EDGE CREATE 1 -> 3 : knows", "EDGE CREATE 3 -> 2 : knows", "NODE DELETE 2",
+        "EMBED STORE 'e9' [0.5, 0.5, 0.0]", "EMBED STORE 'e1' [0.0, 0.0, 1.0]", "EMBED DELETE 'e2'", "ROLLBACK TO 'base'",
+    ];
+    const SETUP: [&str; 11] = [
+        "CREATE TABLE t (id INT, name TEXT)", "INSERT INTO t (id, name) VALUES (1, 'ann')", "INSERT INTO t (id, name) VALUES (2, 'bob')",
+        "NODE CREATE person {name: 'ann'}", "NODE CREATE person {name: 'bob'}", "NODE CREATE person {name: 'cy'}", "EDGE CREATE 1 -> 2 : knows",
+        "EMBED STORE 'e1' [1.0, 0.0, 0.5]", "EMBED STORE 'e2' [0.0, 1.0, 0.25]", "CHECKPOINT 'base'", "INSERT INTO t (id, name) VALUES (3, 'cy')",
+    ];
+
+    fn router(cache: bool) -> Result<QueryRouter, String> {
+        let mut r = QueryRouter::with_shared_store(TensorStore::new());
+        r.init_blob().map_err(|e| format!("init_blob: {e}"))?;
+        r.init_checkpoint_with_config(CheckpointConfig::new().with_auto_checkpoint(false).with_interactive_confirm(false)).map_err(|e| format!("init_checkpoint: {e}"))?;
+        if cache { r.init_cache(); }
+        for q in SETUP { r.execute_parsed(q).map_err(|e| format!("setup {q:?}: {e}"))?; }
+        Ok(r)
+    }
+    fn show(r: &QueryRouter, q: &str) -> String { match no_panic(std::panic::AssertUnwindSafe(|| r.execute_parsed(q))) { Ok(Ok(v)) => format!("{v:?}"), Ok(Err(e)) => format!("ERR {e}"), Err(p) => format!("PANIC {p}") } }
+
+    /// read (fills the cache), write, the same read again: a router WITH the query cache must answer every step like a
+    /// router without one that executed the same statements
+    pub fn eval(case: &Value) -> Result<String, String> {
+        let (ri, wi) = (case["read"].as_u64().ok_or("read")? as usize, case["write"].as_u64().ok_or("write")? as usize);
+        let (read, write) = (*READS.get(ri).ok_or("read index")?, *WRITES.get(wi).ok_or("write index")?);
+        let (c, n) = (router(true)?, router(false)?);
+        let mut steps = vec![];
+        for q in [read, read, write, read, read] {
+            let (a, b) = (show(&c, q), show(&n, q));
+            if a != b { return Err(format!("after {steps:?}: {q:?} with the query cache => {a}; without => {b}")); }
+            steps.push(q);
+        }
+        Ok(format!("{read:?}, {write:?}, {read:?}: the cached router answers like the uncached one"))
+    }
+    pub fn cases() -> Vec<Value> {
+        let mut out = vec![];
+        for r in 0..READS.len() { for w in 0..WRITES.len() { out.push(json!({"read": r, "write": w})); } }
+        out
+    }
+}
 
 pub fn run(tier: Tier, seed: u64) -> Report {
     let thorough = tier == Tier::Thorough;
@@ -2025,6 +2081,13 @@ pub fn run(tier: Tier, seed: u64) -> Report {
         Err(e) => rep.check(galgo::OB, false, &|| json!({"fixture": true}), &|| format!("cannot build the graph fixture with direct engine calls: {e}")),
     }
     rep.sample(json!({"stmt": "pagerank", "damping": 0.5, "direction": "INCOMING", "edge_type": "follows", "rev": true}));
+    // --- the query cache changes speed only
+    for c in cached::cases() {
+        let r = cached::eval(&c);
+        rep.eval(true);
+        rep.check(cached::OB, r.is_ok(), &|| c.clone(), &|| r.clone().err().unwrap_or_default());
+    }
+    rep.sample(json!({"read": 2, "write": 5}));
     // --- text execution is total (no panic) on WHERE-clause soup incl. characters whose upper-case form has another byte length
     {
         const SYM: [&str; 10] = ["a", "1", " ", "=", "'", " AND ", " OR ", "\u{131}", "\u{e9}", "\u{fb01}"];
@@ -2080,6 +2143,7 @@ pub fn replay(ob: &str, case: &Value) -> Result<String, String> {
             let q = case["text"].as_str().ok_or("text")?;
             Ok(format!("expr: {:?}\nstmt: {:?}", parse_expr(q).map(|e| postfix::to_json(&postfix::strip(&e)).to_string()), parse(&format!("SELECT * FROM t WHERE {q}")).map(|s| match s.kind { StatementKind::Select(x) => x.where_clause.map(|w| postfix::to_json(&postfix::strip(&w)).to_string()), _ => None })))
         },
+        "C15.text.equiv.cached" => cached::eval(case),
         "C15.total.execute" => equiv::total_eval(case["entry"].as_str().ok_or("entry")?, case["text"].as_str().ok_or("text")?),
         _ => Err(format!("unknown obligation {ob}")),
     }
